@@ -586,6 +586,10 @@ def aff_pair(a, va, b, vb):
                         ExprCompose([(vlo, 0, lo.stop - lo.start),
                                      (vhi, hi.start - lo.start,
                                       hi.stop - lo.start)]))]
+    if a == b:
+        # one operand named twice ('xadd eax, eax'): the instruction writes
+        # it once, with the value it writes last
+        return [ExprAff(b, vb)]
     return [ExprAff(a, va), ExprAff(b, vb)]
 
 def xchg(info, a, b):
